@@ -1,7 +1,7 @@
 #!/bin/sh
 # Runs every seeded change under /verif/seeded against the quick check of its property (applied to /repo, undone afterwards).
 cd /verif
-for d in seeded/*/; do
+for d in seeded/[A-Z]*/; do
   n=$(basename $d)
   p=$(python3 -c "import json;m=json.load(open('$d/meta.json'));print(m.get('checked_under',m['property']))")
   r=$(tools/try_seed.sh $n $p quick 0 2>&1 | tail -1)
